@@ -1,4 +1,4 @@
-import IofloModel.Lemmas.Poly
+import IofloModel.Lemmas.PolyConvex
 /-!
 # C44 — point-in-polygon tests agree with exact geometry
 
@@ -6,9 +6,14 @@ Integer coordinates, arbitrary vertex lists (simple or not, degenerate or not) u
 Proved: what `tween2` / the boundary test mean geometrically, that the five predicates partition the
 plane consistently with the `side` flag, that the winding number vanishes exactly off the strict
 interior as the code defines it, its behaviour under reversal / rotation of the vertex list /
-translation, and the exact interior for axis-parallel rectangles.
-NOT proved (`C44_full`): that the crossing sum is the geometric interior for every simple polygon
-(Jordan curve theorem); that part rests on the correspondence runs.
+translation, the exact interior for axis-parallel rectangles, and — `C44_convex_interior`,
+`C44_convex_classification` — for EVERY CONVEX polygon (either orientation, collinear vertices allowed)
+that strictly inside = strictly on the same side of every side, boundary = on some side, winding
+number non-zero exactly inside.  For any closed polygon: a point strictly left of every side is
+inside (`C44_left_of_every_side_inside`), a polygon strictly on one side of a line through the point
+does not wind round it (`C44_separated_not_inside`).
+NOT proved (`C44_full`): that the crossing sum is the geometric interior for every simple NON-convex
+polygon (Jordan curve theorem); that part rests on the correspondence runs.
 -/
 namespace Ioflo.Poly
 
@@ -239,9 +244,206 @@ theorem C44_rectangle_interior_partial (p : Pt) (x0 y0 x1 y1 : Int) (hx : x0 < x
 /-- non-vacuity -/
 example : insideOnly (1, 1) [(0, 0), (3, 0), (3, 2), (0, 2)] = true ∧ sideOnly (3, 1) [(0, 0), (3, 0), (3, 2), (0, 2)] = true := by decide
 
+/-! ## convex polygons -/
+
+/-- **any polygon**: if all its vertices lie strictly on one side of some line through `p`
+(`n` = a normal of the line) it does not wind round `p` -/
+theorem C44_separated_not_inside (n p : Pt) (vs : List Pt) (h : ∀ v ∈ vs, 0 < dot n (sub v p)) :
+    wind p vs = 0 ∧ insideOnly p vs = false := by
+  have hc := crossSum_halfplane n p vs h
+  constructor
+  · rw [wind_eq, hc]; split <;> rfl
+  · simp only [insideOnly, inside_eq, hc]; split <;> simp
+
+/-- **any closed polygon**: a point strictly to the left of every side is strictly inside by the
+code, with positive winding number -/
+theorem C44_left_of_every_side_inside (p : Pt) (vs : List Pt) (h : InsideCCW p vs) :
+    insideOnly p vs = true ∧ 1 ≤ wind p vs := by
+  have hc := crossSum_pos_of_inside p vs h
+  have hb : onBoundary p vs = false := by
+    cases hbb : onBoundary p vs with
+    | false => rfl
+    | true =>
+      obtain ⟨e, he, h0⟩ := boundary_ori_zero p vs hbb
+      have := h.2 e he; omega
+  constructor
+  · simp only [insideOnly, inside_eq, hb, Bool.false_eq_true, if_false, bne_iff_ne, ne_eq]; omega
+  · rw [wind_eq, hb]; simpa using hc
+
+/-- **convex polygons**: a point strictly to the right of some side is outside -/
+theorem C44_convex_right_of_a_side_outside (p : Pt) (vs : List Pt) (hc : ConvexCCW vs)
+    (e : Pt × Pt) (he : e ∈ edges vs) (hr : ori p e < 0) : wind p vs = 0 ∧ insideOnly p vs = false := by
+  have h0 := crossSum_of_right p vs hc e he hr
+  constructor
+  · rw [wind_eq, h0]; split <;> rfl
+  · simp only [insideOnly, inside_eq, h0]; split <;> simp
+
+/-- **convex polygons given counter-clockwise, every integer point**: strictly inside by the code ⇔
+strictly to the left of every side -/
+theorem C44_convex_ccw_interior (p : Pt) (vs : List Pt) (hc : ConvexCCW vs) (hps : ProperSides vs) :
+    insideOnly p vs = true ↔ InsideCCW p vs := by
+  constructor
+  · intro hin
+    have hne : vs ≠ [] := by
+      rintro rfl
+      simp [insideOnly, inside, insideLoop, edges] at hin
+    have hb : onBoundary p vs = false := by
+      cases hbb : onBoundary p vs with
+      | false => rfl
+      | true => simp [insideOnly, inside_eq, hbb] at hin
+    have hcs : crossSum p (edges vs) ≠ 0 := by
+      simpa [insideOnly, inside_eq, hb] using hin
+    refine ⟨hne, ?_⟩
+    intro e he
+    by_cases hneg : ori p e < 0
+    · exact absurd (crossSum_of_right p vs hc e he hneg) hcs
+    · by_cases hz : ori p e = 0
+      · exact absurd (crossSum_of_on_line p vs hc hps hb e he hz) hcs
+      · omega
+  · intro h; exact (C44_left_of_every_side_inside p vs h).1
+
+theorem mem_rot1' {α : Type} (x : α) (l : List α) : x ∈ rot1 l ↔ x ∈ l := by
+  cases l with
+  | nil => simp [rot1]
+  | cons a t => simp [rot1, or_comm]
+
+theorem mem_edges_reverse (vs : List Pt) (e : Pt × Pt) : e ∈ edges vs.reverse ↔ e.swap ∈ edges vs := by
+  cases vs with
+  | nil => simp [edges]
+  | cons a t =>
+    have hrot : (a :: t).reverse = rot1 (a :: t.reverse) := by simp [rot1]
+    rw [hrot, edges_rot1, mem_rot1', edges_eq_pairs, edges_eq_pairs]
+    have hw : a :: (t.reverse ++ [a]) = (a :: (t ++ [a])).reverse := by simp
+    rw [hw, pairs_reverse]
+    simp only [List.mem_reverse, List.mem_map]
+    constructor
+    · rintro ⟨x, hx, rfl⟩; simpa using hx
+    · intro h; exact ⟨e.swap, h, by simp⟩
+
+theorem onBoundary_reverse (p : Pt) (vs : List Pt) : onBoundary p vs.reverse = onBoundary p vs := by
+  cases vs with
+  | nil => rfl
+  | cons a t =>
+    have hrot : (a :: t).reverse = rot1 (a :: t.reverse) := by simp [rot1]
+    rw [hrot, onBoundary_rot1]
+    simp only [onBoundary, edges_eq_pairs]
+    have hw : a :: (t.reverse ++ [a]) = (a :: (t ++ [a])).reverse := by simp
+    rw [hw, pairs_reverse, onEdge_swap_reverse]
+    congr 1
+    apply decide_eq_decide.mpr
+    simp
+
+theorem crossSum_reverse (p : Pt) (vs : List Pt) : crossSum p (edges vs.reverse) = - crossSum p (edges vs) := by
+  cases vs with
+  | nil => simp [edges, crossSum]
+  | cons a t =>
+    have hrot : (a :: t).reverse = rot1 (a :: t.reverse) := by simp [rot1]
+    rw [hrot, edges_rot1, crossSum_rot1, edges_eq_pairs, edges_eq_pairs]
+    have hw : a :: (t.reverse ++ [a]) = (a :: (t ++ [a])).reverse := by simp
+    rw [hw, pairs_reverse, crossSum_swap_reverse]
+
+theorem insideOnly_reverse (p : Pt) (vs : List Pt) : insideOnly p vs.reverse = insideOnly p vs := by
+  simp only [insideOnly, inside_eq, onBoundary_reverse, crossSum_reverse]
+  cases onBoundary p vs
+  · simp only [Bool.false_eq_true, if_false]
+    by_cases h : crossSum p (edges vs) = 0
+    · rw [h]; rfl
+    · have h' : - crossSum p (edges vs) ≠ 0 := by omega
+      have e1 : (-crossSum p (edges vs) != 0) = true := by simpa using h'
+      have e2 : (crossSum p (edges vs) != 0) = true := by simpa using h
+      rw [e1, e2]
+  · rfl
+
+theorem ori_swap (p a b : Pt) : ori p (b, a) = - ori p (a, b) := by
+  simp only [ori, trip, sub]; grind
+
+/-- convex: no zero-length side, and — walked one way or the other — every vertex on or to the left
+of the line of every side -/
+def Convex (vs : List Pt) : Prop := ProperSides vs ∧ (ConvexCCW vs ∨ ConvexCCW vs.reverse)
+
+instance (vs : List Pt) : Decidable (Convex vs) := by unfold Convex; infer_instance
+
+/-- strictly on the same side of every side -/
+def InsideConvex (p : Pt) (vs : List Pt) : Prop :=
+  vs ≠ [] ∧ ((∀ e ∈ edges vs, 0 < ori p e) ∨ (∀ e ∈ edges vs, ori p e < 0))
+
+instance (p : Pt) (vs : List Pt) : Decidable (InsideConvex p vs) := by unfold InsideConvex; infer_instance
+
+theorem insideCCW_reverse_iff (p : Pt) (vs : List Pt) :
+    InsideCCW p vs.reverse ↔ (vs ≠ [] ∧ ∀ e ∈ edges vs, ori p e < 0) := by
+  unfold InsideCCW
+  have hne : vs.reverse ≠ [] ↔ vs ≠ [] := by simp
+  rw [hne]
+  constructor
+  · rintro ⟨h1, h2⟩
+    refine ⟨h1, ?_⟩
+    intro e he
+    have := h2 e.swap ((mem_edges_reverse vs e.swap).mpr (by simpa using he))
+    obtain ⟨a, b⟩ := e
+    simp only [Prod.swap] at this
+    rw [ori_swap] at this; omega
+  · rintro ⟨h1, h2⟩
+    refine ⟨h1, ?_⟩
+    intro e he
+    have := h2 e.swap ((mem_edges_reverse vs e).mp he)
+    obtain ⟨a, b⟩ := e
+    simp only [Prod.swap] at this
+    rw [ori_swap] at this; omega
+
+theorem properSides_reverse (vs : List Pt) (h : ProperSides vs) : ProperSides vs.reverse := by
+  intro e he
+  have := h e.swap ((mem_edges_reverse vs e).mp he)
+  obtain ⟨a, b⟩ := e
+  simp only [Prod.swap] at this ⊢
+  exact fun h => this h.symm
+
+/-- **C44 for convex polygons** (integer vertices, either orientation, every integer point):
+the code's strictly-inside test is "strictly on the same side of every side" -/
+theorem C44_convex_interior (p : Pt) (vs : List Pt) (hc : Convex vs) :
+    insideOnly p vs = true ↔ InsideConvex p vs := by
+  obtain ⟨hps, hor⟩ := hc
+  constructor
+  · intro hin
+    rcases hor with hccw | hcw
+    · have := (C44_convex_ccw_interior p vs hccw hps).mp hin
+      exact ⟨this.1, Or.inl this.2⟩
+    · have hin' : insideOnly p vs.reverse = true := by rw [insideOnly_reverse]; exact hin
+      have := (C44_convex_ccw_interior p vs.reverse hcw (properSides_reverse vs hps)).mp hin'
+      have := (insideCCW_reverse_iff p vs).mp this
+      exact ⟨this.1, Or.inr this.2⟩
+  · rintro ⟨hne, hl | hr⟩
+    · exact (C44_left_of_every_side_inside p vs ⟨hne, hl⟩).1
+    · have := (insideCCW_reverse_iff p vs).mpr ⟨hne, hr⟩
+      have := (C44_left_of_every_side_inside p vs.reverse this).1
+      rw [insideOnly_reverse] at this; exact this
+
+/-- the complete classification for convex polygons: boundary = on some side (segment, ends included),
+strictly inside = same side of every side, strictly outside = the rest; winding number ±1… non-zero
+exactly inside -/
+theorem C44_convex_classification (p : Pt) (vs : List Pt) (hc : Convex vs) :
+    (sideOnly p vs = true ↔ (p ∈ vs ∨ ∃ e ∈ edges vs, OnSegment p e.1 e.2)) ∧
+    (insideOnly p vs = true ↔ InsideConvex p vs) ∧
+    (outsideOnly p vs = true ↔ (sideOnly p vs = false ∧ ¬ InsideConvex p vs)) ∧
+    (wind p vs ≠ 0 ↔ InsideConvex p vs) := by
+  have hi := C44_convex_interior p vs hc
+  refine ⟨C44_sideOnly_iff_on_boundary p vs, hi, ?_, ?_⟩
+  · rcases C44_predicates_partition p vs with h | h | h <;> simp [h, ← hi]
+  · rw [← hi]
+    have := C44_wind_zero_iff_not_insideOnly p vs
+    cases h : insideOnly p vs <;> simp [h] at this ⊢ <;> omega
+
+/-- non-vacuity: a triangle and a pentagon, both orientations -/
+example : Convex [(0, 0), (4, 0), (1, 3)] ∧ Convex [(0, 0), (4, 0), (1, 3)].reverse ∧
+    Convex [(0, 0), (4, 0), (5, 3), (2, 5), (-1, 2)] ∧ Convex [(0, 0), (4, 0), (5, 3), (2, 5), (-1, 2)].reverse ∧
+    InsideConvex (1, 1) [(0, 0), (4, 0), (1, 3)] ∧ InsideConvex (1, 1) [(0, 0), (4, 0), (1, 3)].reverse ∧
+    InsideConvex (2, 2) [(0, 0), (4, 0), (5, 3), (2, 5), (-1, 2)].reverse ∧
+    ¬ InsideConvex (5, 0) [(0, 0), (4, 0), (1, 3)] ∧ ¬ InsideConvex (2, 0) [(0, 0), (4, 0), (1, 3)] ∧
+    ¬ Convex [(0, 0), (4, 0), (1, 1), (2, 4)] := by decide
+
 /-! ## what is not proved -/
 
-/-- the geometric statement for all simple polygons: a point off the boundary is strictly inside
+/-- the geometric statement for all simple polygons (proved above for the convex ones and for
+axis-parallel rectangles only): a point off the boundary is strictly inside
 by the code iff it is in the bounded component of the complement of the polygon's curve.  Stated
 here through an abstract `Interior` predicate that any proof would have to instantiate with the
 Jordan interior; NOT proved — the correspondence check compares with exact rational ray casting
